@@ -252,6 +252,12 @@ def strip_private(prog):
     return [{k: v for k, v in s.items() if not k.startswith('_')} for s in prog]
 
 
+class LabelIdent(str):
+    """The set identifier of the label in force at a write, carrying the label's sequence number with it (decode() hands
+    both to the strict reader)."""
+    seq = 1
+
+
 def run_one(ctx, prog, stream='K-api'):
     """Execute on implementation and model. Returns dict(outs, model, agree, files=[(step index, bytes, vrl)])."""
     im = apimodel.Impl()
@@ -262,11 +268,16 @@ def run_one(ctx, prog, stream='K-api'):
     files = []
     vrl = None
     ident = None
+    seq = 1
     for i, (s, o) in enumerate(zip(prog, outs)):
         r = rep[i] if i < len(rep) else [2]
         if s['op'] == 'newfile':
-            vrl, ident = s['vrl'], s['ident']
+            vrl, ident, seq = s['vrl'], s['ident'], s['seq']
             continue
+        if s['op'] == 'set_label':
+            seq = s['value'] if s['field'] == 'seq' else seq
+            vrl = s['value'] if s['field'] == 'vrl' else vrl
+            ident = s['value'] if s['field'] == 'ident' else ident
         ctx.stat(stream, 'op_' + s['op'])
         if o[0] == 'err':
             ctx.stat(stream, 'rejected_' + s['op'])
@@ -285,7 +296,9 @@ def run_one(ctx, prog, stream='K-api'):
             break
         if s['op'] == 'write' and o[0] == 'ok':
             a, b = o[1]['file'], r[1]
-            files.append((i, a, vrl, ident))
+            lid = LabelIdent(ident)
+            lid.seq = seq
+            files.append((i, a, vrl, lid))
             if a != b:
                 agree = False
                 pos = next((j for j in range(min(len(a), len(b))) if a[j] != b[j]), min(len(a), len(b)))
@@ -297,7 +310,7 @@ def run_one(ctx, prog, stream='K-api'):
 
 
 def decode(ctx, data, vrl, ident):
-    return filemodel.read_file(ctx, data, vrl, ident)
+    return filemodel.read_file(ctx, data, vrl, ident, seq=getattr(ident, 'seq', 1))
 
 
 def shift_refs(ops, off):
@@ -323,6 +336,9 @@ def gen_multi_lf(rng, naming=None, n_lf=None, vrl=None):
     prog = [{'op': 'newfile', 'ident': 'MAIN-STORAGE-UNIT', 'seq': 1, 'vrl': vrl}]
     per_lf = []
     off = 0
+    # channel names: specific to their logical file, or (a third of the 'distinct' programs) the same in every logical file —
+    # each logical file keeps its own arrays under those names
+    same_channel_names = (naming == 'distinct' and rng.random() < 0.35)
     for li in range(n_lf):
         spec = specgen.gen_spec(rng, vrl=vrl, n_objects=rng.randrange(0, 6), multi_set=False, n_frames=rng.choice([1, 1, 2]))
         p = apimodel.from_spec(spec, write=False)
@@ -342,7 +358,7 @@ def gen_multi_lf(rng, naming=None, n_lf=None, vrl=None):
                     s['set_name'] = 'LF%d' % li
                 else:
                     s['set_name'] = None
-                if s['op'] == 'channel':
+                if s['op'] == 'channel' and not same_channel_names:
                     s['name'] = specgen.r_str('L%d_%s' % (li, s['name']['v']))    # dataset names are per logical file anyway
         off += n_created
         per_lf.append((head, ops))
@@ -379,7 +395,9 @@ def gen_multi_lf(rng, naming=None, n_lf=None, vrl=None):
             if s['op'] == 'assign':
                 s['obj'] = newidx.get(s['obj'], s['obj'])
         prog += order
-    prog.append({'op': 'write'})
+    # half of the writes pass a dict for `data` (empty when every channel carries its array): the arrays attached to the
+    # channels of one logical file must not reach another one through it
+    prog.append({'op': 'write', 'data': 'dict'} if rng.random() < 0.5 else {'op': 'write'})
     return prog, naming
 
 
@@ -444,7 +462,7 @@ def gen_hc(rng):
     for j in range(nch):
         maybe_ctx()
         dt = rng.choice(['uint8', 'uint16', 'uint32', 'float32', 'float64', 'float64', 'int16', 'int32'])
-        units = rng.choice([None, specgen.r_str('m'), specgen.r_enum('Unit', 'METER'), specgen.r_str('furlongs-per-fortnight')])
+        units = rng.choice([None, specgen.r_str('m'), specgen.r_enum('Unit', 'METER'), specgen.r_str('furlongs-per-fortnight'), specgen.r_str('M'), specgen.r_str(' m'), specgen.r_str('FT')])
         kw = {} if units is None else {'units': units}
         prog.append({'op': 'channel', 'lf': 0, 'name': specgen.r_str(rng.choice(HC_OK_NAMES + HC_BAD_NAMES[:3]) + str(j)), 'set_name': None, 'origin': None,
                      'kw': kw, 'data': {'dtype': dt, 'rows': 4, 'width': rng.choice([None, None, 2]), 'seed': rng.randrange(1 << 20)}})
@@ -464,8 +482,8 @@ def gen_hc(rng):
         tk = rng.choice(['equipment', 'zone', 'axis', 'tool', 'message'])
         kw = {}
         if tk == 'equipment':
-            kw = {'eq_type': rng.choice([specgen.r_str('Tool'), specgen.r_str('not-a-type'), specgen.r_enum('EquipmentType', 'TOOL')]),
-                  'location': rng.choice([specgen.r_str('Well'), specgen.r_str('elsewhere')]), 'serial_number': specgen.r_str(rng.choice(['SN-1', 'sn 1']))}
+            kw = {'eq_type': rng.choice([specgen.r_str('Tool'), specgen.r_str('not-a-type'), specgen.r_enum('EquipmentType', 'TOOL'), specgen.r_str('TOOL'), specgen.r_str('tool ')]),
+                  'location': rng.choice([specgen.r_str('Well'), specgen.r_str('elsewhere'), specgen.r_str('WELL'), specgen.r_str('well')]), 'serial_number': specgen.r_str(rng.choice(['SN-1', 'sn 1']))}
         prog.append({'op': 'add', 'lf': 0, 'type': tk, 'name': specgen.r_str(rng.choice(HC_OK_NAMES + HC_BAD_NAMES)), 'set_name': None, 'origin': None, 'kw': kw})
         created += 1
     # later assignments of restricted aspects, in whatever mode is current THEN (objects may have been created in the other mode)
@@ -474,13 +492,13 @@ def gen_hc(rng):
         maybe_ctx()
         i, tk = rng.choice(objs_t)
         if tk == 'channel':
-            a = {'attr': 'units', 'part': 'value', 'raw': rng.choice([specgen.r_str('m'), specgen.r_str('furlongs-per-fortnight'), specgen.r_enum('Unit', 'METER')])}
+            a = {'attr': 'units', 'part': 'value', 'raw': rng.choice([specgen.r_str('m'), specgen.r_str('furlongs-per-fortnight'), specgen.r_enum('Unit', 'METER'), specgen.r_str('M'), specgen.r_str('Ft')])}
         elif tk == 'equipment':
-            a = rng.choice([{'attr': '_type', 'part': 'value', 'raw': rng.choice([specgen.r_str('Tool'), specgen.r_str('not-a-type')])},
-                            {'attr': 'location', 'part': 'value', 'raw': rng.choice([specgen.r_str('Well'), specgen.r_str('elsewhere')])},
+            a = rng.choice([{'attr': '_type', 'part': 'value', 'raw': rng.choice([specgen.r_str('Tool'), specgen.r_str('not-a-type'), specgen.r_str('TOOL')])},
+                            {'attr': 'location', 'part': 'value', 'raw': rng.choice([specgen.r_str('Well'), specgen.r_str('elsewhere'), specgen.r_str('well ')])},
                             {'attr': 'height', 'part': 'units', 'raw': rng.choice([specgen.r_str('m'), specgen.r_str('cubits')])}])
         elif tk == 'frame':
-            a = {'attr': 'index_type', 'part': 'value', 'raw': rng.choice([specgen.r_str('BOREHOLE-DEPTH'), specgen.r_str('sideways')])}
+            a = {'attr': 'index_type', 'part': 'value', 'raw': rng.choice([specgen.r_str('BOREHOLE-DEPTH'), specgen.r_str('sideways'), specgen.r_str('borehole-depth'), specgen.r_str(' BOREHOLE-DEPTH')])}
         elif tk == 'zone':
             a = {'attr': 'maximum', 'part': 'units', 'raw': rng.choice([specgen.r_str('m'), specgen.r_str('cubits')])}
         else:
@@ -531,9 +549,56 @@ def rewrite_history(rng):
             q.append({'op': 'set_header', 'lf': 0, 'field': 'seq', 'raw': specgen.r_int(rng.choice([2, 7, 9999999999, 20261001123, 12345678901]))})
         else:
             q.append({'op': 'set_header', 'lf': 0, 'field': 'id', 'raw': specgen.r_str(rng.choice([fh, fh, 'OTHER-ID', 'x' * 66, 'y' * 79]))})
+    # the storage unit label is a plain object too: its fields are what they are at the write
+    if rng.random() < 0.5:
+        f = rng.choice(['vrl', 'vrl', 'ident', 'seq'])
+        q.append({'op': 'set_label', 'field': f,
+                  'value': {'vrl': rng.choice([20, 64, 128, 256, 8192, 16384, 18, 21, 16386]),
+                            'ident': rng.choice(['OTHER-UNIT', '', 'u' * 60, 'v' * 61]),
+                            'seq': rng.choice([2, 9999, 10000, 0])}[f]})
     rng.shuffle(q)
     return body + [{'op': 'write'}] + q + [{'op': 'write'}], body + q + [{'op': 'write'}]
 
+
+
+NON_ASCII = ['\u00e9', '\u00b0', '\u00df', '\u03a9', '\u00b5', '\u00bd', '\u4e2d', '\x80', '\xff', 'e\u0301', '\ufb01']
+
+
+def nonascii_program(rng):
+    """A valid program in which ONE text leaf of an add_*/assignment argument holds a character outside ASCII (accented
+    letter, degree sign, ligature, CJK...). Such a character has no encoding under ASCII/IDENT/UNITS: the call or the write
+    is refused, or else whatever is written must still announce exactly the bytes that follow."""
+    for _ in range(50):
+        prog, _m = gen_program(rng, flavor='valid')
+        leaves = []
+
+        def walk(raw, where):
+            if isinstance(raw, dict):
+                if raw.get('t') == 'str' and isinstance(raw.get('v'), str):
+                    leaves.append((raw, where))
+                for k in ('v', 'value', 'units'):
+                    x = raw.get(k)
+                    if isinstance(x, dict):
+                        walk(x, where)
+                    elif isinstance(x, list):
+                        for y in x:
+                            walk(y, where)
+        for s_ in prog:
+            if s_['op'] in ('origin', 'add', 'channel', 'frame'):
+                for k, raw in s_.get('kw', {}).items():
+                    walk(raw, (s_['op'], s_.get('type'), k))
+            elif s_['op'] == 'assign':
+                walk(s_.get('raw'), ('assign', s_.get('_type'), s_.get('attr')))
+        if not leaves:
+            continue
+        prog = copy.deepcopy(prog) if False else prog
+        leaf, where = rng.choice(leaves)
+        c = rng.choice(NON_ASCII)
+        v = leaf['v']
+        pos = rng.randrange(len(v) + 1)
+        leaf['v'] = v[:pos] + c * rng.choice([1, 1, 2]) + v[pos:]
+        return prog, {'where': where, 'char': c}
+    return None, None
 
 
 def gen_value_lists(rng, n=None, bad=None):
